@@ -104,6 +104,18 @@ func (c c17Case) build() (*world.State, *appsv1.StatefulSet) {
 		a.Labels = map[string]string{"owner": "someone"}
 		a.Status = asv1.StatefulSetStatus{Replicas: 9}
 		st.API.Sets["web"] = a
+	case "superset":
+		// left by an earlier, interrupted upgrade of an older version of the built-in set: it has everything the
+		// built-in set has now, plus map entries and optional fields that were removed there since
+		a := adv.DeepCopy()
+		a.UID = "uid-adv-web"
+		a.Spec.Template.Labels["track"] = "canary"
+		a.Spec.Template.Annotations = map[string]string{"note": "old"}
+		a.Spec.Template.Spec.NodeSelector = map[string]string{"disk": "ssd"}
+		grace := int64(5)
+		a.Spec.Template.Spec.TerminationGracePeriodSeconds = &grace
+		a.Status = asv1.StatefulSetStatus{}
+		st.API.Sets["web"] = a
 	}
 	st.SyncCaches()
 	return st, sts
@@ -361,7 +373,7 @@ func init() {
 			depth = 3
 		}
 		kinds := []string{world.FErr500, world.FTimeout, world.FConflict, world.FGone, world.FExists, world.FCrashBefore, world.FCrashAfter}
-		rep.Rule = fmt.Sprintf("the real helper.Upgrade on the API model: selector{app=web | app In (web) | app=web and app Exists | app Exists | app Exists and tier NotIn (cache) | app=web and canary DoesNotExist} x revision populations of size 0..3 over {matching, non-matching, foreign-owned} x Advanced set{absent, present equal, present different}; for every API call position of the run x fault kind %v applicable to the verb, then re-run from the resulting state with a further fault at every position, to depth %d, finally re-run without faults; oracle: at the delete of the built-in set an Advanced set with equal spec and status exists, propagation is Orphan, every revision listed at the start carries the marker and no longer matches the selector; no write on pods/claims; a fault-free re-run succeeds and the final state equals the uninterrupted run's (UIDs of the new object normalised; not compared when a `gone` fault, i.e. a concurrent deletion by someone else, changed the world). Non-trivial = at least one fault injected.", kinds, depth)
+		rep.Rule = fmt.Sprintf("the real helper.Upgrade on the API model: selector{app=web | app In (web) | app=web and app Exists | app Exists | app Exists and tier NotIn (cache) | app=web and canary DoesNotExist} x revision populations of size 0..3 over {matching, non-matching, foreign-owned} x Advanced set{absent, present equal, present different, present with a superset of the spec (extra template labels/annotations, node selector, optional fields)}; for every API call position of the run x fault kind %v applicable to the verb, then re-run from the resulting state with a further fault at every position, to depth %d, finally re-run without faults; oracle: at the delete of the built-in set an Advanced set with equal spec and status exists, propagation is Orphan, every revision listed at the start carries the marker and no longer matches the selector; no write on pods/claims; a fault-free re-run succeeds and the final state equals the uninterrupted run's (UIDs of the new object normalised; not compared when a `gone` fault, i.e. a concurrent deletion by someone else, changed the world). Non-trivial = at least one fault injected.", kinds, depth)
 		rep.Assumptions = []string{"the caller re-runs the helper with the same built-in object it started with", "API model of DESIGN.md Appendix A; the built-in controller and the garbage collector are not running during the upgrade"}
 		var cases []c17Case
 		var revPops [][]string
@@ -378,7 +390,7 @@ func init() {
 		genPops(nil)
 		for _, s := range []string{"matchLabels", "expressions", "both", "exists", "exists+notin", "label+absent"} {
 			for _, p := range revPops {
-				for _, a := range []string{"absent", "equal", "different"} {
+				for _, a := range []string{"absent", "equal", "different", "superset"} {
 					cases = append(cases, c17Case{Selector: s, Revs: p, Adv: a})
 				}
 			}
